@@ -697,6 +697,62 @@ func vStartupChild() {
 	os.Exit(0)
 }
 
+// vStartReal starts the real program (in a private network namespace) with the given HOME and returns what it announces.
+// ok=false with skipped=true where no namespace or binary is available.
+func vStartReal(home string) (got map[string]string, out string, ok, skipped bool) {
+	bin := os.Getenv("VERIF_EXTRA_BIN")
+	if bin == "" {
+		return nil, "", false, true
+	}
+	if _, err := exec.LookPath("unshare"); err != nil {
+		return nil, "", false, true
+	}
+	sh := fmt.Sprintf("ip link set lo up && exec %q -test.run '^TestVerif$'", os.Args[0])
+	cmd := exec.Command("unshare", "-n", "sh", "-c", sh)
+	cmd.Env = append(os.Environ(), "VERIF_CHILD=startup", "HOME="+home, "VERIF_PROP=C16", "VERIF_EXTRA_BIN="+bin)
+	b, err := cmd.CombinedOutput()
+	out = string(b)
+	i := strings.Index(out, "STARTUP ")
+	if err != nil || i < 0 {
+		if strings.Contains(out, "Operation not permitted") || strings.Contains(out, "unshare:") {
+			return nil, out, false, true
+		}
+		return nil, out, false, false
+	}
+	line := out[i+len("STARTUP "):]
+	if j := strings.Index(line, "\n"); j >= 0 {
+		line = line[:j]
+	}
+	got = map[string]string{}
+	if err := json.Unmarshal([]byte(line), &got); err != nil {
+		return nil, out, false, false
+	}
+	return got, out, true, false
+}
+
+// vAnnouncedVersion tells which of the given versions the announcements of a started program correspond to (record lengths,
+// output base path, triangle configuration), 0 if none.
+func vAnnouncedVersion(got map[string]string, versions ...int) (int, string) {
+	var st ServerStatus
+	var ws WritingState
+	var tc TriangleSourceConfig
+	json.Unmarshal([]byte(got["STATUS"]), &st)
+	json.Unmarshal([]byte(got["WRITING"]), &ws)
+	json.Unmarshal([]byte(got["TRIANGLE"]), &tc)
+	desc := fmt.Sprintf("record lengths %d/%d, base path %q, triangle %+v", st.Npresamp, st.Nsamples, ws.BasePath, tc)
+	for _, v := range versions {
+		w := vVersionValues(v)
+		es := w["STATUS"].(ServerStatus)
+		ew := w["WRITING"].(*WritingState)
+		et := w["TRIANGLE"].(*TriangleSourceConfig)
+		if st.Npresamp == es.Npresamp && st.Nsamples == es.Nsamples && ws.BasePath == ew.BasePath &&
+			tc.Nchan == et.Nchan && tc.SampleRate == et.SampleRate && tc.Min == et.Min && tc.Max == et.Max {
+			return v, desc
+		}
+	}
+	return 0, desc
+}
+
 // vRunStartup: version 1, then version N of every persistent topic is saved by the real saveState in a child; then the
 // real program starts from that HOME in a private network namespace and must announce exactly those values.
 func vRunStartup(c *vCase) {
@@ -937,11 +993,11 @@ func vRunCrash(c *vCase) {
 		return
 	}
 	c.Cov("kills_at_"+point, 1)
-	vCheckAfterKill(c, dir, point, point == "none")
+	vCheckAfterKill(c, dir, point, point == "none", c.Idx%3 == 0 && (point == "save.begin" || point == "save.tmpWritten" || point == "save.bakRemoved"))
 }
 
 // vCheckAfterKill inspects ~/.dastard before any start-up code has run.
-func vCheckAfterKill(c *vCase, dir, point string, completed bool) {
+func vCheckAfterKill(c *vCase, dir, point string, completed, realStart bool) {
 	ents, _ := os.ReadDir(dir)
 	var names []string
 	for _, en := range ents {
@@ -980,6 +1036,36 @@ func vCheckAfterKill(c *vCase, dir, point string, completed bool) {
 		c.Cov("survived_as_old_version", 1)
 	} else {
 		c.Cov("survived_as_new_version", 1)
+	}
+	// the next start-up of the real program (its own start-up code included), on a copy of what the kill left behind:
+	// it must come up with the complete old or the complete new configuration
+	if realStart {
+		chome := filepath.Join(c.Dir, fmt.Sprintf("after_kill_%d", c.Idx))
+		os.RemoveAll(chome)
+		os.MkdirAll(filepath.Join(chome, ".dastard"), 0o755)
+		for _, en := range ents {
+			if b, err := os.ReadFile(filepath.Join(dir, en.Name())); err == nil {
+				os.WriteFile(filepath.Join(chome, ".dastard", en.Name()), b, 0o644)
+				if st, err := os.Stat(filepath.Join(dir, en.Name())); err == nil {
+					os.Chtimes(filepath.Join(chome, ".dastard", en.Name()), st.ModTime(), st.ModTime())
+				}
+			}
+		}
+		got, out, ok, skipped := vStartReal(chome)
+		switch {
+		case skipped:
+			c.Cov("startup_family_skipped", 1)
+		case !ok:
+			c.Violate("c16:start-up-after-kill-failed", "killed at %s: the real program did not start up from the directory the kill left behind (%v): %s", point, names, vTrim(out, 600))
+			return
+		default:
+			if v, desc := vAnnouncedVersion(got, 1, 2); v == 0 {
+				c.Violate("c16:start-up-after-kill", "killed at %s: the real program started from the directory the kill left behind (%v) announces neither the old nor the new configuration: %s", point, names, desc)
+				return
+			}
+			c.Cov("real_startups_after_a_kill", 1)
+		}
+		os.RemoveAll(chome)
 	}
 	// the next run: it must be able to save again, whatever the killed save left lying around
 	home := filepath.Dir(dir)
@@ -1089,7 +1175,7 @@ func vRunCrashSys(c *vCase) {
 	_ = out
 	c.Cov("syscall_kills", 1)
 	c.Distinct("syscall_kill_point", fmt.Sprintf("%s#%d", kp.name, kp.ordinal))
-	vCheckAfterKill(c, dir, fmt.Sprintf("entry to %s #%d [%s]", kp.name, kp.ordinal, kp.what), false)
+	vCheckAfterKill(c, dir, fmt.Sprintf("entry to %s #%d [%s]", kp.name, kp.ordinal, kp.what), false, (c.Idx/4/len(vKillPoints))%2 == 0)
 }
 
 func vRunStatus(c *vCase) {
@@ -1129,7 +1215,7 @@ func init() {
 			Assumptions: []string{"libzmq delivers in order on one connection and loses nothing once the subscription is established (receive high-water mark 0)", "a process kill, not a power loss: data written before the kill are in the page cache",
 				"edge-multi settings are documented as not restored", "NEWDASTARD is an announcement the code documents as not stored"},
 			Guards: map[string]map[string]int{
-				"quick":    {"replays": 60, "replayed_messages": 1000, "republished_values": 200, "persist_histories": 60, "persist_histories_ending_with_unsaved_topic": 15, "restored_topics_compared": 300, "kills_at_save.begin": 8, "kills_at_save.tmpWritten": 8, "kills_at_save.bakRemoved": 8, "kills_at_save.mainMoved": 8, "kills_at_save.done": 8, "survived_as_old_version": 10, "survived_as_new_version": 10, "syscall_kills": 30, "startups_of_the_real_program": 8, "saves_after_a_killed_save": 60, "trigger_restores_in_fresh_process": 20, "distinct:syscall_kill_point": 8},
+				"quick":    {"replays": 60, "replayed_messages": 1000, "republished_values": 200, "persist_histories": 60, "persist_histories_ending_with_unsaved_topic": 15, "restored_topics_compared": 300, "kills_at_save.begin": 8, "kills_at_save.tmpWritten": 8, "kills_at_save.bakRemoved": 8, "kills_at_save.mainMoved": 8, "kills_at_save.done": 8, "survived_as_old_version": 10, "survived_as_new_version": 10, "syscall_kills": 30, "startups_of_the_real_program": 8, "real_startups_after_a_kill": 10, "saves_after_a_killed_save": 60, "trigger_restores_in_fresh_process": 20, "distinct:syscall_kill_point": 8},
 				"thorough": {"replays": 800, "persist_histories": 800},
 			}},
 	})
